@@ -304,8 +304,8 @@ func KmerOf(k int, lookUp alphabet.Index, kmertext string) (kmer Kmer, err error
 		return 0, ErrBadKmerTextLen
 	}
 
-	for _, v := range kmertext {
-		x := lookUp[v]
+	for i := 0; i < len(kmertext); i++ {
+		x := lookUp[kmertext[i]]
 		if x < 0 {
 			return 0, ErrBadKmerText
 		}
@@ -368,8 +368,8 @@ func (ki *Index) KmerOf(kmertext string) (kmer Kmer, err error) {
 		return 0, ErrBadKmerTextLen
 	}
 
-	for _, v := range kmertext {
-		x := ki.lookUp[v]
+	for i := 0; i < len(kmertext); i++ {
+		x := ki.lookUp[kmertext[i]]
 		if x < 0 {
 			return 0, ErrBadKmerText
 		}
